@@ -59,7 +59,7 @@ type Nsublis struct {
 // Call the function with the arguments provided.
 func (f *Nsublis) Call(s *slip.Scope, args slip.List, depth int) (result slip.Object) {
 	slip.CheckArgCount(s, depth, f, args, 2, 6)
-	alist, ok := args[0].(slip.List)
+	alist, ok := listArg(args[0])
 	if !ok {
 		slip.TypePanic(s, depth, "alist", args[0], "association list")
 	}
